@@ -25,10 +25,10 @@ def mode1_2352(payload: bytes) -> bytes:
     return bytes(out)
 
 
-def mdx(payload: bytes, descriptor: int = 6000) -> bytes:
+def mdx(payload: bytes, descriptor: int = 6000, version: bytes = b"\x02\x01") -> bytes:
     """64-byte header (its 64-bit field = end of the payload), the payload, and -- as in real files -- the media descriptor
     BEHIND the payload: `descriptor` non-zero bytes that belong to the wrapper, not to the image"""
-    hdr = b"MEDIA DESCRIPTOR" + b"\x02\x01" + b"\xA9" + b" " * 25 + b"\xFF" * 4 + struct.pack("<Q", 64 + len(payload)) + bytes(8)
+    hdr = b"MEDIA DESCRIPTOR" + version + b"\xA9" + b" " * 25 + b"\xFF" * 4 + struct.pack("<Q", 64 + len(payload)) + bytes(8)
     assert len(hdr) == 64
     return hdr + payload + bytes(((k * 11 + 5) % 255) + 1 for k in range(descriptor))
 
